@@ -598,9 +598,9 @@ impl Cx<'_> {
                 }
             }
             SK::Uri => {
-                if deep && self.rng.chance(1, 5) {
+                if deep && self.rng.chance(1, 5) && matches!(self.resolve(None, "concat"), Found::Builtin) {
                     let mut v = self.use_tok(None, "concat", None);
-                    // `concat` may be shadowed by nothing: the generator never declares it.
+                    // (a parameter may be called `concat`: the built-in is then out of reach)
                     v.extend(self.term(Kind::S(SK::Uri), 0));
                     v.extend(self.term(Kind::S(SK::Uri), 0));
                     self.features.insert("builtin_use");
@@ -824,7 +824,24 @@ impl Cx<'_> {
             let mut m = vec![t("headers"), t("=")];
             // Literal objects only: the evaluator casts headers with `cast_object`, which the
             // type checker does not fully guard (a C01 matter, not claimed here).
-            m.extend(self.object(0));
+            if self.rng.chance(1, 4) {
+                // header names that differ in case only, among others
+                let mut hs = vec![("'ETag", "str"), ("'etag", "str"), ("'X-Rate-Limit", "int"), ("'x-rate-limit", "num"), ("'Vary", "str")];
+                self.rng.shuffle(&mut hs);
+                let n = self.rng.range(3, 5);
+                m.push(t("{"));
+                for (i, (name, ty)) in hs.into_iter().take(n).enumerate() {
+                    if i > 0 {
+                        m.push(t(","));
+                    }
+                    m.push(t(name));
+                    m.push(t(ty));
+                }
+                m.push(t("}"));
+                self.features.insert("headers_differing_in_case");
+            } else {
+                m.extend(self.object(0));
+            }
             metas.push(m);
             self.features.insert("headers");
         }
@@ -1097,6 +1114,11 @@ pub fn generate(rng: &mut Rng, cfg: &GenCfg) -> ProgramAst {
             let mut guard = 0;
             loop {
                 name = rng.pick(POOL).to_string();
+                if is_ref && rng.chance(1, 10) {
+                    // a user reference that looks like a compiler-made one
+                    name = format!("hash-{}", name.trim_start_matches('_'));
+                    features.insert("reference_named_like_an_implicit_one");
+                }
                 if guard > 5 {
                     name = format!("{}{}", name, rng.below(100));
                 }
@@ -1162,7 +1184,12 @@ pub fn generate(rng: &mut Rng, cfg: &GenCfg) -> ProgramAst {
                         pn = params[rng.below(params.len())].0.clone();
                         features.insert("duplicate_parameter_name");
                     }
-                    while !dup && (used.contains(&pn) || pn == "concat") {
+                    // now and then a parameter takes the built-in's name
+                    if !dup && !used.contains("concat") && rng.chance(1, 25) {
+                        pn = "concat".to_string();
+                        features.insert("parameter_named_like_the_builtin");
+                    }
+                    while !dup && used.contains(&pn) {
                         pn = format!("{}{}", pn, rng.below(10));
                     }
                     used.insert(pn.clone());
